@@ -240,6 +240,7 @@ pub fn op_name(o: &Op) -> &'static str {
         Op::Spawn { .. } => "spawn",
         Op::Acquire { .. } => "acquire",
         Op::Send { .. } => "send",
+        Op::SendThenDrop { .. } => "send_then_drop",
         Op::ForceSend { .. } => "force_send",
         Op::Call { .. } => "call",
         Op::Ping { .. } => "ping",
